@@ -175,30 +175,34 @@ Proof.
     destruct K as [K|K]; [exact K|discriminate].
 Qed.
 
-Lemma hdr_step_script e sn n v :
-  has_underscore n = false -> snd (hdr_step (e, sn) (n, v)) = sn.
+Lemma hdr_step_script hon e sn n v :
+  has_underscore n = false \/ hon = false -> snd (hdr_step hon (e, sn) (n, v)) = sn.
 Proof.
   intros H. unfold hdr_step.
   destruct (beq n s_CONTENT_TYPE_h); [reflexivity|]. destruct (beq n s_CONTENT_LENGTH_h); [reflexivity|].
   destruct (beq n s_SCRIPT_NAME) eqn:E; [|reflexivity].
+  destruct H as [H| ->]; [|reflexivity].
   apply beq_eq in E. subst. discriminate.
 Qed.
 
-Lemma fold_hdr_script : forall hs e sn,
-  Forall (fun nv => has_underscore (fst nv) = false) hs ->
-  snd (fold_left hdr_step hs (e, sn)) = sn.
+Lemma fold_hdr_script hon : forall hs e sn,
+  Forall (fun nv => has_underscore (fst nv) = false) hs \/ hon = false ->
+  snd (fold_left (hdr_step hon) hs (e, sn)) = sn.
 Proof.
   induction hs as [|[n v] hs IH]; intros e sn H; [reflexivity|].
-  inversion H; subst. cbn [fold_left].
-  pose proof (hdr_step_script e sn n v H2) as Hs.
-  destruct (hdr_step (e, sn) (n, v)) as [e' sn'] eqn:E. cbn in Hs. subst sn'. apply IH. exact H3.
+  cbn [fold_left].
+  assert (H1 : has_underscore n = false \/ hon = false).
+  { destruct H as [H|H]; [left; inversion H; assumption|right; exact H]. }
+  pose proof (hdr_step_script hon e sn n v H1) as Hs.
+  destruct (hdr_step hon (e, sn) (n, v)) as [e' sn'] eqn:E. cbn in Hs. subst sn'. apply IH.
+  destruct H as [H|H]; [left; inversion H; assumption|right; exact H].
 Qed.
 
 (* the keys set after the header loop, read back *)
 Lemma wsgi_create_tail c r p e :
   wsgi_create c r p = inr e ->
   exists env1 sn pi,
-    fold_left hdr_step (r_headers r)
+    fold_left (hdr_step (honours_script_name c p)) (r_headers r)
       ([(s_REQUEST_METHOD, r_method r); (s_QUERY_STRING, r_query r); (s_RAW_URI, r_uri r);
         (s_SERVER_PROTOCOL, protocol_text (r_version r))], os_script_name c) = (env1, sn) /\
     r_path r = sn ++ pi /\
@@ -212,7 +216,7 @@ Lemma wsgi_create_tail c r p e :
                beq k s_PROXY_ADDR = false -> beq k s_PROXY_PORT = false -> env_get k e = env_get k env1).
 Proof.
   unfold wsgi_create.
-  destruct (fold_left hdr_step (r_headers r) _) as [env1 sn] eqn:Ef.
+  destruct (fold_left (hdr_step (honours_script_name c p)) (r_headers r) _) as [env1 sn] eqn:Ef.
   set (env2 := env_set s_url_scheme _ env1).
   set (env3 := match p with PStr s => _ | PTuple h port => _ end).
   set (pinfo := match sn with [] => Some (r_path r) | _ => _ end).
@@ -373,11 +377,31 @@ Proof.
   apply wsgi_create_tail in Hw as (env1 & sn & pi & Hf & Hpa & H1 & H2 & H3 & _).
   cbn [set_ppi r_headers r_https r_path r_method r_query r_uri r_version] in *.
   match type of Hf with fold_left _ _ (?e0, _) = _ =>
-    pose proof (fold_hdr_script (r_headers r) e0 (os_script_name c) Hn) as Hsn end.
+    pose proof (fold_hdr_script (honours_script_name c p) (r_headers r) e0 (os_script_name c) (or_introl Hn)) as Hsn end.
   assert (Hsn' : snd (env1, sn) = os_script_name c) by (rewrite <- Hf; exact Hsn).
   cbn in Hsn'. subst sn.
   rewrite Hs in H1. repeat split; try assumption.
   exists pi. rewrite <- Hpath. split; assumption.
+Qed.
+
+(* on a tree where wsgi.create checks the gate itself, the script name is out of an untrusted peer's
+   reach in every header-map mode *)
+Theorem untrusted_script_name_any_mode_proof : forall c p reqno data r rest i e,
+  script_name_needs_trust = true -> trusted_fwd c p = false ->
+  parse_request c p reqno data = PAccept r rest ->
+  wsgi_create c (set_ppi r i) p = inr e ->
+  env_get s_SCRIPT_NAME e = Some (os_script_name c) /\
+  exists pi, r_path r = os_script_name c ++ pi /\ env_get s_PATH_INFO e = Some (unquote pi).
+Proof.
+  intros c p reqno data r rest i e Hflag Ht _ Hw.
+  apply wsgi_create_tail in Hw as (env1 & sn & pi & Hf & Hpa & _ & H2 & H3 & _).
+  cbn [set_ppi r_headers r_https r_path r_method r_query r_uri r_version] in *.
+  assert (Hh : honours_script_name c p = false).
+  { unfold honours_script_name. rewrite Ht, Hflag. reflexivity. }
+  match type of Hf with fold_left _ _ (?e0, _) = _ =>
+    pose proof (fold_hdr_script (honours_script_name c p) (r_headers r) e0 (os_script_name c) (or_intror Hh)) as Hsn end.
+  assert (Hsn' : snd (env1, sn) = os_script_name c) by (rewrite <- Hf; exact Hsn).
+  cbn in Hsn'. subst sn. split; [exact H2|]. exists pi. split; assumption.
 Qed.
 
 (* ---- PROXY line gate and carry ------------------------------------------------------------------------------- *)
@@ -525,6 +549,20 @@ Proof.
   - lia.
   - intros _. exists r, rest. split; assumption.
   - intros H. contradiction.
+Qed.
+
+(* the gate is not only necessary: a PROXY line that passes it is what request 1 carries *)
+Theorem proxy_line_is_applied_proof : forall c p data pl rb i r rest,
+  proxy_protocol c = true -> cut_crlf data = Some (pl, rb) -> starts_with s_PROXY pl = true ->
+  parse_proxy_line pl = Some i ->
+  parse_request c p 1 data = PAccept r rest -> r_ppi r = Some i.
+Proof.
+  intros c p data pl rb i r rest Hpp Hcut Hst Hline Hp.
+  apply parse_request_inv in Hp as (_ & _ & _ & _ & Hsome & Hnone).
+  destruct (r_ppi r) as [i'|] eqn:E.
+  - destruct (Hsome i' eq_refl) as (_ & _ & _ & pl' & rb' & Hcut' & _ & Hline').
+    rewrite Hcut in Hcut'. inversion Hcut'. subst pl' rb'. congruence.
+  - specialize (Hnone eq_refl). unfold proxy_line_taken in Hnone. rewrite Hcut, Hpp, Hst in Hnone. discriminate.
 Qed.
 
 (* ---- the fuel of conn_run is enough -------------------------------------------------------------------------- *)
